@@ -56,6 +56,7 @@ class Prop:
     trusted_extra = []
     exhaustive = False
     stay_in_limits = True    # shrinking keeps histories inside the property's quantifier
+    oracle_beyond_limits = False   # True: the property's own text puts no limit on the states its oracle judges (C13)
     needs_spec = False       # run the extracted reference model (Spec.v) next to the implementation
     shrink_ok = True         # False where the oracle relates several graphs/handles of one history (twins, pairs,
                              # positions recorded in meta): deleting calls would fabricate differences
